@@ -167,11 +167,16 @@ def packaged (system : String) : Except Err Rows :=
     .ok (mkRows p.2 dens)
   | none => .error .fileNotFound
 
-/-- `if Path(system).is_file(): constraints = system  else: constraints = get_data_fname("constraints/" + system)` -/
+/-- `constraints = get_data_fname("constraints/" + system)`; `if not Path(constraints).is_file() and Path(system).is_file():
+constraints = system` — a packaged crystal-system name always means the packaged relations; only a name that is not a
+packaged system is looked up as a user-supplied relations file -/
 def resolve (env : Env) (system : String) : Except Err Rows :=
-  match env.userFile system with
-  | some rows => .ok rows
-  | none => packaged system
+  match packaged system with
+  | .ok rows => .ok rows
+  | .error e =>
+    match env.userFile system with
+    | some rows => .ok rows
+    | none => .error e
 
 /-! ### fill_cij -/
 
